@@ -97,6 +97,10 @@ def array_cfg(rng, tier, prop, families):
         cfg["dtypes"] = cfg["dtypes"] + ["f4"]
     if rng.random() < 0.1:
         cfg["inf_rate"] = 0.05
+    if rng.random() < 0.08:
+        k_ = len(cfg["dim_names"])
+        cfg["dim_names"] = (V.ODD_DIM_NAMES + ["x"])[:max(2, k_)]
+        cfg["odd_names"] = True
     cfg["min_len"] = min(cfg["min_len"], cfg["max_len"])
     cfg["scenario_rate"] = {"C05": rng.choice([0.0, 0.1, 0.25]), "C15": rng.choice([0.0, 0.0, 0.1]), "C16": 0.0}[prop]
     return cfg
